@@ -1020,6 +1020,15 @@ impl Compiler {
         if let Some(finalizer) = &try_stmt.finalizer {
             self.builder.set_span(finalizer.span);
 
+            // The completion that led into the finally block belongs to this block: the
+            // VM keeps it as a marker on the try stack (value in `completion_reg`) while
+            // the block runs, which is one more try-stack entry for everything inside.
+            let completion_reg = self.builder.alloc_register()?;
+            self.builder.emit(Op::FinallyStart {
+                value: completion_reg,
+            });
+            self.try_depth += 1;
+
             // Compile finally block (a block of its own: its let/const do not leak out)
             self.builder.emit(Op::PushScope);
             self.emit_lexical_prelude(&finalizer.body)?;
@@ -1028,8 +1037,10 @@ impl Compiler {
             }
             self.builder.emit(Op::PopScope);
 
-            // FinallyEnd completes any pending return/throw
+            // FinallyEnd completes this block's pending return/throw/break/continue
+            self.try_depth -= 1;
             self.builder.emit(Op::FinallyEnd);
+            self.builder.free_register(completion_reg);
         }
 
         // End of try-catch-finally
